@@ -203,14 +203,14 @@ def activePair (t : Sess) (c : SCall) : Option (Att × Att) :=
 /-- The decision `handleSendMsg` takes before its critical section: the signature must verify
 (`verifyOk`: `SessionMsg.ExtractAndVerify`, C01) and the signer must be the authenticated
 identity of the submitting stream. -/
-def admit (verifyOk : Bool) (signer src : Nat) : Bool := verifyOk && signer = src
+def admitOk (verifyOk : Bool) (signer src : Nat) : Bool := verifyOk && signer = src
 
 /-- `handleSendMsg`: admission check, then the critical section. -/
 def sSend (s : State) (call epoch : Nat) (m : Msg) (verifyOk : Bool) (signer : Nat) : State :=
   match getSCall s call with
   | none => s
   | some c =>
-    if !admit verifyOk signer c.src then setSCall s { c with readerDone := true } else
+    if !admitOk verifyOk signer c.src then setSCall s { c with readerDone := true } else
     match getSess s c.sess with
     | none => s
     | some t =>
